@@ -215,6 +215,12 @@ Theorem C05_real_params_ok :
 Proof. exact real_params_ok. Qed.
 Print Assumptions C05_real_params_ok.
 
+Theorem C05_vote_kinds_agree :
+  real_kinds_ucon = real_kinds_staking /\
+  real_kinds_staking = [2%N; 3%N; 4%N; vote_certificate].
+Proof. exact real_kinds_agree. Qed.
+Print Assumptions C05_vote_kinds_agree.
+
 (* ---- non-vacuity ------------------------------------------------------------------------------------ *)
 
 (* the hypotheses on signatures and honest emissions are satisfiable together
